@@ -102,23 +102,23 @@ Qed.
 (* an enumerator initialiser of the fragment that enumred.c reduces computes, at run time
    with its operands in variables, exactly the reduced value *)
 Theorem enumred_agrees_with_runtime_partial : forall e t e',
-  ty_of e = Some t -> emit_ok e = true -> int_only e = true ->
+  ty_of e = Some t -> int_only e = true ->
   efold e = FOk e' -> ty_of e' = Some t /\ rt_eval e' = rt_eval e.
 Proof.
-  intros e t e' Hty He Hi Hf.
+  intros e t e' Hty Hi Hf.
   destruct (efold_vs_fold e Hi) as [C|[E _]]; [rewrite C in Hf; discriminate|].
-  rewrite E in Hf. exact (fold_agrees_with_runtime_partial e t e' Hty He Hf).
+  rewrite E in Hf. exact (fold_agrees_with_runtime e t e' Hty Hf).
 Qed.
 
 Theorem enum_index_is_runtime_value : forall e z,
-  ty_of e = Some TInt -> emit_ok e = true -> int_only e = true ->
+  ty_of e = Some TInt -> int_only e = true ->
   enum_index e = Some z -> rt_eval e = Val (VInt z).
 Proof.
-  intros e z Hty He Hi H. unfold enum_index in H.
+  intros e z Hty Hi H. unfold enum_index in H.
   destruct (efold e) as [e'| |] eqn:F; try discriminate.
   destruct e' as [l| | | | |]; try discriminate. destruct l; try discriminate.
   inversion H; subst.
-  destruct (enumred_agrees_with_runtime_partial e TInt _ Hty He Hi F) as [_ R].
+  destruct (enumred_agrees_with_runtime_partial e TInt _ Hty Hi F) as [_ R].
   rewrite <- R. reflexivity.
 Qed.
 
